@@ -5,8 +5,8 @@ import l0_common
 ID = "C14"
 LEVEL = "proof"
 generate = l0_common.generate   # regenerates coq/Gen/GoArith.v from ../repo (Size.times is used by segmentSize)
-COQ_TARGETS = ["Props/Properties_C14.vo", "Extract/ExtractFrame.vo"]
-PROPS_FILES = ["Props/Properties_C14.v"]
+COQ_TARGETS = ["Props/Properties_C14.vo", "Props/Properties_C14b.vo", "Extract/ExtractFrame.vo"]
+PROPS_FILES = ["Props/Properties_C14.v", "Props/Properties_C14b.v"]
 RUNS = [dict(name="frame", harness="c14", driver="frame", model_ml="frame_model")]
 EXPLANATION = ("Theorems over all message lists / all byte strings / all chunkings / all decoder states about the Gallina "
                "model of the stream framing in message.go (Marshal, Unmarshal, Encoder.Encode, Decoder.Decode with "
